@@ -90,14 +90,20 @@ def _std_dump(class_kids=(), parents='GObject', extra=()):
     return nodes + list(extra)
 
 
-def property_flags(flags: int, ptype: int, has_default: bool, on_interface: bool):
-    """A property reported with an arbitrary flag word (0..4095) and GType."""
+HIGH = (0, 1 << 30, -(1 << 31), (1 << 31), 1 << 12, -(1 << 12))
+
+
+def property_flags(flags: int, ptype: int, has_default: bool, on_interface: bool, high: int = 0):
+    """A property reported with an arbitrary flag word and GType: low 12 bits `flags`,
+    plus one of HIGH (G_PARAM_DEPRECATED is bit 31; gdump.c prints the word with %d,
+    so it arrives as a negative decimal)."""
     flags = sym.pick(flags, 0, 4095)
+    high = sym.pick(high, 0, len(HIGH) - 1)
     ptype = sym.pick(ptype, 0, N_GT - 1)
     has_default = sym.flag(has_default)
     on_interface = sym.flag(on_interface)
     with sym.untraced():
-        return _property_flags(flags, ptype, has_default, on_interface)
+        return _property_flags(flags + HIGH[high], ptype, has_default, on_interface)
 
 
 def _property_flags(flags, ptype, has_default, on_interface):
@@ -348,8 +354,13 @@ def _interfaces(i0, i1, i2, i3, on_interface, suffix):
 # ------------------------------------------------------------------------------
 # boxed / class structures / virtual methods / get-type functions / error quarks
 
+ERR_NAMES = (('FooSomeError', 'some_error', 'FOO_SOME_ERROR'), ('FooDBusError', 'dbus_error', 'FOO_DBUS_ERROR'),
+             ('FooIOChannelError', 'io_channel_error', 'FOO_IO_CHANNEL_ERROR'))
+
+
 def pairing(boxed_kind: int, with_class_struct: bool, vf_first: int, vf2_first: int, quark: int,
-            enum_registered: bool):
+            enum_registered: bool, ename: int = 0):
+    ename = sym.pick(ename, 0, len(ERR_NAMES) - 1)
     boxed_kind = sym.pick(boxed_kind, 0, 3)
     with_class_struct = sym.flag(with_class_struct)
     vf_first = sym.pick(vf_first, 0, 3)
@@ -357,7 +368,7 @@ def pairing(boxed_kind: int, with_class_struct: bool, vf_first: int, vf2_first: 
     quark = sym.pick(quark, 0, 3)
     enum_registered = sym.flag(enum_registered)
     with sym.untraced():
-        return _pairing(boxed_kind, with_class_struct, vf_first, vf2_first, quark, enum_registered)
+        return _pairing(boxed_kind, with_class_struct, vf_first, vf2_first, quark, enum_registered, ename)
 
 
 FIRSTS = ('FooObj*', 'FooRec*', 'int', None)      # first parameter of a class-struct slot; None: no parameters
@@ -376,7 +387,8 @@ def _slot(name, first):
     return s_member(name, t_ptr(t_func(t_void(), ps)))
 
 
-def _pairing(boxed_kind, with_class_struct, vf_first, vf2_first, quark, enum_registered):
+def _pairing(boxed_kind, with_class_struct, vf_first, vf2_first, quark, enum_registered, ename=0):
+    ENUM, elow, EUP = ERR_NAMES[ename]
     # boxed_kind: 0 a struct FooThing exists, 1 a union FooThing exists, 2 nothing, 3 only an enum of that name
     d = []
     d += [s_typedef('FooRec', t_struct('_FooRec')), s_struct('_FooRec', [s_member('x', t_basic('int'))])]
@@ -394,18 +406,18 @@ def _pairing(boxed_kind, with_class_struct, vf_first, vf2_first, quark, enum_reg
     d.append(s_function('foo_obj_get_type', t_typedef('GType'), []))
     d.append(s_function('foo_obj_poke', t_void(), [s_param('self', t_ptr(t_typedef('FooObj')))]))
     # error enum + quark function
-    d.append(s_enum('FooSomeError', [s_enum_member('FOO_SOME_ERROR_A', 0), s_enum_member('FOO_SOME_ERROR_B', 1)]))
-    qname = (None, 'foo_some_error_quark', 'foo_other_error_quark', 'foo_some_error_quark')[quark]
+    d.append(s_enum(ENUM, [s_enum_member(EUP + '_A', 0), s_enum_member(EUP + '_B', 1)]))
+    qname = (None, 'foo_%s_quark' % elow, 'foo_other_error_quark', 'foo_%s_quark' % elow)[quark]
     if qname:
         d.append(s_function(qname, t_typedef('GQuark') if quark != 3 else t_basic('int'), []))
     if enum_registered:
-        d.append(s_function('foo_some_error_get_type', t_typedef('GType'), []))
+        d.append(s_function('foo_%s_get_type' % elow, t_typedef('GType'), []))
     dump = [FakeXml('boxed', {'name': 'FooThing', 'get-type': 'foo_thing_get_type'}),
             FakeXml('class', {'name': 'FooObj', 'get-type': 'foo_obj_get_type', 'parents': 'GObject'})]
     if enum_registered:
-        dump.append(FakeXml('enum', {'name': 'FooSomeError', 'get-type': 'foo_some_error_get_type'},
-                            [FakeXml('member', {'name': 'FOO_SOME_ERROR_A', 'nick': 'a', 'value': '0'}),
-                             FakeXml('member', {'name': 'FOO_SOME_ERROR_B', 'nick': 'b', 'value': '1'})]))
+        dump.append(FakeXml('enum', {'name': ENUM, 'get-type': 'foo_%s_get_type' % elow},
+                            [FakeXml('member', {'name': EUP + '_A', 'nick': 'a', 'value': '0'}),
+                             FakeXml('member', {'name': EUP + '_B', 'nick': 'b', 'value': '1'})]))
     if qname and quark != 3:
         dump.append(FakeXml('error-quark', {'function': qname, 'domain': 'foo-some-domain'}))
     if boxed_kind == 3:
@@ -456,13 +468,13 @@ def _pairing(boxed_kind, with_class_struct, vf_first, vf2_first, quark, enum_reg
     ns = [e for e in root.iter() if e.tag == 'namespace'][0]
     top_funcs = [f.get('c:identifier') for f in ns.children if f.tag == 'function']
     all_funcs = [f.get('c:identifier') for f in root.iter() if f.tag in ('function', 'method', 'constructor')]
-    for gt in ('foo_obj_get_type', 'foo_thing_get_type') + (('foo_some_error_get_type',) if enum_registered else ()):
+    for gt in ('foo_obj_get_type', 'foo_thing_get_type') + (('foo_%s_get_type' % elow,) if enum_registered else ()):
         if gt in all_funcs:
             return 'get-type function %s still listed' % gt
     if 'foo_obj_poke' not in all_funcs:
         return 'ordinary function lost'
     # --- error domain -----------------------------------------------------------------------
-    en = _find(root, 'enumeration', 'SomeError')
+    en = _find(root, 'enumeration', ENUM[3:])
     if len(en) != 1:
         return 'error enumeration emitted %d times' % len(en)
     dom = en[0].get('glib:error-domain')
@@ -471,6 +483,6 @@ def _pairing(boxed_kind, with_class_struct, vf_first, vf2_first, quark, enum_reg
             return 'error domain %r, quark function reported foo-some-domain' % dom
     elif dom is not None:
         return 'error domain %r without a matching quark function' % dom
-    if enum_registered and en[0].get('glib:get-type') != 'foo_some_error_get_type':
+    if enum_registered and en[0].get('glib:get-type') != 'foo_%s_get_type' % elow:
         return 'registered enum lost its get-type'
     return True
